@@ -109,7 +109,7 @@ class Module:
         return cur
 
     def loc(self, node: ast.AST) -> str:
-        return f"{os.path.relpath(self.path, REPO)}:{getattr(node, 'lineno', 0)}"
+        return f"{os.path.relpath(self.path, REPO)}:{getattr(node, '_orig_lineno', getattr(node, 'lineno', 0))}"
 
     def stmt_text(self, node: ast.AST) -> str:
         try:
